@@ -28,7 +28,7 @@ import (
 
 var cliDirNames = []string{"", "t-root", "Web.App", "My_Pwd", "Other-1"}
 var cliParents = []int{0, 0, 1, 2, 1}
-var cliVars = []string{"COMPOSE_FILE", "COMPOSE_PATH_SEPARATOR", "COMPOSE_PROJECT_NAME", "VV"}
+var cliVars = []string{"COMPOSE_FILE", "COMPOSE_PATH_SEPARATOR", "COMPOSE_PROJECT_NAME", "COMPOSE_PROFILES", "VV"}
 
 type cliWorld struct {
 	fs      [5][]string // 1..4
@@ -99,6 +99,8 @@ func cliDotEnvText(kind string, d int) string {
 		return fmt.Sprintf("VV=env%d\nCOMPOSE_FILE=x.yaml\n", d)
 	case "name":
 		return fmt.Sprintf("VV=env%d\nCOMPOSE_PROJECT_NAME=from-dotenv-%d\n", d, d)
+	case "prof":
+		return fmt.Sprintf("VV=env%d\nCOMPOSE_PROFILES=dbg,y\n", d)
 	}
 	return ""
 }
@@ -116,7 +118,7 @@ func (w *cliWorld) materialise(base string) error {
 			if f == ".env" {
 				text = cliDotEnvText(w.dotenv[d], d)
 			} else {
-				text = fmt.Sprintf("services:\n  %s:\n    image: \"img-${COMPOSE_PROJECT_NAME}-${VV:-none}\"\n", cliSvcName(d, f))
+				text = fmt.Sprintf("services:\n  %s:\n    image: \"img-${COMPOSE_PROJECT_NAME}-${VV:-none}\"\n  %s-dbg:\n    image: \"img-${COMPOSE_PROJECT_NAME}-${VV:-none}\"\n    profiles: [dbg]\n", cliSvcName(d, f), cliSvcName(d, f))
 			}
 			if err := os.WriteFile(filepath.Join(w.dir(d), f), []byte(text), 0o644); err != nil {
 				return err
@@ -218,6 +220,15 @@ func (w *cliWorld) build(from map[string]interface{}, alt bool) (*cli.ProjectOpt
 		}
 		po.EnvFiles = append(po.EnvFiles, s)
 	}
+	if pr := asMap(from["prof"]); asBool(pr["set"]) {
+		var ps []string
+		for _, x := range asList(pr["v"]) {
+			ps = append(ps, asStr(x))
+		}
+		if err := cli.WithProfiles(ps)(po); err != nil {
+			return nil, err
+		}
+	}
 	switch e := from["env"].(type) {
 	case map[string]interface{}:
 		for k, v := range e {
@@ -308,6 +319,16 @@ func (w *cliWorld) apply(po *cli.ProjectOptions, st cliStep, alt bool) (out map[
 		fn = cli.WithEnvFiles(fs...)
 	case "dot-env":
 		fn = cli.WithDotEnv
+	case "profiles", "default-profiles":
+		var ps []string
+		for _, x := range asList(st.arg) {
+			ps = append(ps, asStr(x))
+		}
+		if st.act == "profiles" {
+			fn = cli.WithProfiles(ps)
+		} else {
+			fn = cli.WithDefaultProfiles(ps...)
+		}
 	case "load":
 		p, err := po.LoadProject(context.Background())
 		if err != nil {
@@ -321,13 +342,34 @@ func (w *cliWorld) apply(po *cli.ProjectOptions, st cliStep, alt bool) (out map[
 			want = append(want, cliSvcName(asInt(a[0]), asStr(a[1])))
 		}
 		sort.Strings(want)
-		got := p.ServiceNames()
+		// the services carrying the profile "dbg": all enabled or all disabled
+		var got []string
+		dbgOn, dbgOff := 0, 0
+		for _, n := range p.ServiceNames() {
+			if strings.HasSuffix(n, "-dbg") {
+				dbgOn++
+			} else {
+				got = append(got, n)
+			}
+		}
+		for n := range p.DisabledServices {
+			if strings.HasSuffix(n, "-dbg") {
+				dbgOff++
+			}
+		}
 		sort.Strings(got)
+		profiles := []interface{}{}
+		for _, x := range p.Profiles {
+			profiles = append(profiles, x)
+		}
 		vv, has := p.Environment["VV"]
 		if vv == "" {
 			vv = "none"
 		}
-		out = map[string]interface{}{"name": p.Name, "dir": w.dirIndex(p.WorkingDir), "files": files, "vv": vv, "hasvv": has}
+		out = map[string]interface{}{"name": p.Name, "dir": w.dirIndex(p.WorkingDir), "files": files, "vv": vv, "hasvv": has, "profiles": profiles, "dbg": dbgOn > 0}
+		if dbgOn > 0 && dbgOff > 0 || dbgOn+dbgOff != len(want) {
+			return out, fmt.Sprintf("@@services: of the %d services with profile dbg %d are enabled and %d disabled", len(want), dbgOn, dbgOff)
+		}
 		if strings.Join(got, ",") != strings.Join(want, ",") {
 			return out, fmt.Sprintf("@@services: the project has services %v; its compose files define %v", got, want)
 		}
@@ -384,6 +426,9 @@ func cliCanon(v interface{}) string {
 		var b strings.Builder
 		b.WriteString("{")
 		for _, k := range keys {
+			if k == "prof" || k == "probe" {
+				continue // not among the public fields of the options value
+			}
 			if k == "env" {
 				// a function printed by TLC (record) or a pair list: same normal form
 				m := map[string]string{}
@@ -430,6 +475,8 @@ func cliClassify(act string, exp, got map[string]interface{}, note string) (sig 
 		return "cli:load:wrong-name", true
 	case strings.HasPrefix(act, "load") && !expErr && !gotErr && (asStr(exp["vv"]) != asStr(got["vv"]) || asBool(exp["hasvv"]) != asBool(got["hasvv"])):
 		return "cli:load:environment", true
+	case act == "load" && !expErr && !gotErr && (cliCanon(exp["profiles"]) != cliCanon(got["profiles"]) || asBool(exp["dbg"]) != asBool(got["dbg"])):
+		return "cli:load:profiles", false // COMPOSE_PROFILES and the profile options are not part of a listed statement
 	case strings.HasPrefix(act, "load") && expErr != gotErr:
 		return "cli:load:outcome", true
 	case act == "env" || act == "os-env" || act == "dot-env" || act == "name":
@@ -490,12 +537,12 @@ func c17Cli(c *core.Ctx) {
 	}
 
 	// ---------------------------------------------------------------- direction 1: every transition of the model
-	level, steps := 0, 3
+	level, steps, profiles := 0, 3, "FALSE"
 	if !c.Quick() {
-		level, steps = 1, 4
+		level, steps, profiles = 1, 4, "TRUE"
 	}
 	dump := filepath.Join(c.Work, "clioptions")
-	r, err := c.RunTLC(core.TLCOpts{Module: "MC_CliOptions", CfgText: fmt.Sprintf("SPECIFICATION Spec\nCONSTANTS Level = %d\n MaxSteps = %d\nINVARIANTS Laws\nVIEW View\nCONSTRAINT Bound\nCHECK_DEADLOCK FALSE\n", level, steps),
+	r, err := c.RunTLC(core.TLCOpts{Module: "MC_CliOptions", CfgText: fmt.Sprintf("SPECIFICATION Spec\nCONSTANTS Level = %d\n MaxSteps = %d\n Profiles = %s\nINVARIANTS Laws\nVIEW View\nCONSTRAINT Bound\nCHECK_DEADLOCK FALSE\n", level, steps, profiles),
 		Dump: dump, Workers: 8, Timeout: 40 * time.Minute, Name: "clioptions"})
 	if err != nil {
 		c.Inconclusive("MC_CliOptions failed: " + err.Error())
@@ -564,6 +611,12 @@ func c17Cli(c *core.Ctx) {
 		c.Eval("cli "+cur.key+" "+cliCanon(from)+" "+act+cliCanon(st.arg), true)
 		if cliCanon(got) != cliCanon(exp) || strings.HasPrefix(note, "@@") || strings.HasPrefix(note, "panic") {
 			report(cur, st, from, exp, got, note, "model transition")
+		} else if probe := asMap(e.tr["probe"]); probe != nil && probe["none"] == nil {
+			// a profile option: its effect is observed by loading the result
+			pg, pnote := cur.apply(po, cliStep{"load", 0}, alt)
+			if cliCanon(pg) != cliCanon(probe) || strings.HasPrefix(pnote, "@@") {
+				report(cur, cliStep{"load", 0}, exp, probe, pg, pnote, "model transition "+act+cliCanon(st.arg)+" then load")
+			}
 		}
 		if i%9973 == 0 {
 			c.Sample(map[string]interface{}{"world": cur.key, "from": cliCanon(from), "action": act, "arg": cliCanon(st.arg), "specification": cliCanon(exp), "real": cliCanon(got)})
@@ -715,7 +768,7 @@ var cliLayouts = [][]string{{}, {"compose.yaml"}, {"docker-compose.yml", "compos
 func cliRandomWorld(rng *rand.Rand) *cliWorld {
 	w := &cliWorld{os: map[string]string{}}
 	pick := func(xs ...string) string { return xs[rng.Intn(len(xs))] }
-	w.dotenv = [5]string{"", "none", pick("none", "vv", "name", "file"), pick("none", "vv", "file", "name"), pick("vv", "name", "none")}
+	w.dotenv = [5]string{"", "none", pick("none", "vv", "name", "file"), pick("none", "vv", "file", "name", "prof"), pick("vv", "name", "none", "prof")}
 	for d := 1; d <= 4; d++ {
 		var lay []string
 		switch d {
@@ -766,6 +819,16 @@ func cliRandomWorld(rng *rand.Rand) *cliWorld {
 	}
 	switch rng.Intn(6) {
 	case 0:
+		w.os["COMPOSE_PROFILES"] = "dbg"
+	case 1:
+		w.os["COMPOSE_PROFILES"] = " x , dbg "
+	case 2:
+		w.os["COMPOSE_PROFILES"] = ""
+	case 3:
+		w.os["COMPOSE_PROFILES"] = "x,,*"
+	}
+	switch rng.Intn(6) {
+	case 0:
 		w.configs = [][2]interface{}{{4, "x.yaml"}}
 	case 1:
 		w.configs = [][2]interface{}{{3, "x.yaml"}, {4, "x.yaml"}}
@@ -780,7 +843,11 @@ func cliRandomStep(rng *rand.Rand, last bool) cliStep {
 	if last {
 		return cliStep{[]string{"load", "load", "load-model"}[rng.Intn(3)], 0}
 	}
-	switch rng.Intn(12) {
+	switch rng.Intn(14) {
+	case 12:
+		return cliStep{"profiles", [][]interface{}{{"x"}, {"dbg", "x"}, {}, {"*"}}[rng.Intn(4)]}
+	case 13:
+		return cliStep{"default-profiles", [][]interface{}{{}, {}, {"*"}, {"y"}}[rng.Intn(4)]}
 	case 0:
 		return cliStep{"name", []string{"explicit-1", "Bad.Name", "", "other_2"}[rng.Intn(4)]}
 	case 1:
